@@ -157,6 +157,23 @@ def arg_is(fn, call, idx, what):
     if idx >= len(args):
         return False
     s = X.strip(args[idx])
+    if what[0] == "param" and s is not None and s.get("k") == "ref" and s.get("rk") == "local":
+        # a local written exactly once (where = NONULL(filename)): its defining expression
+        defs = []
+        for x in walk(fn.body):
+            if x.get("k") == "assign" and X.strip(x["ch"][0]).get("d") == s["d"]:
+                defs.append(x["ch"][1] if x.get("op") == "=" else None)
+            elif x.get("k") == "un" and x.get("op") in ("++", "--", "&") and X.strip(x["ch"][0]).get("d") == s["d"]:
+                defs.append(None)
+            elif x.get("k") == "decl":
+                defs += [dc["init"] for dc in x.get("decls", ()) if dc["d"] == s["d"] and dc.get("init") is not None]
+        if len(defs) == 1 and defs[0] is not None:
+            s = X.strip(defs[0])
+            # the parameter it copies must not be re-assigned either
+            ps_ = [y for y in walk(defs[0]) if y.get("k") == "ref" and y.get("rk") == "param"]
+            if any(x.get("k") == "assign" and X.strip(x["ch"][0]).get("rk") == "param" and X.strip(x["ch"][0]).get("d") in {y["d"] for y in ps_}
+                   for x in walk(fn.body)):
+                return False
     if what[0] == "param":
         # NONULL(filename) = (filename) ? filename : "<null>"
         if s.get("k") == "cond":
@@ -167,6 +184,38 @@ def arg_is(fn, call, idx, what):
     if what[0] == "addr_global":
         return s.get("k") == "un" and s.get("op") == "&" and X.strip(s["ch"][0]).get("n") == what[1]
     return False
+
+
+def arg_is_returned_value(path, call, idx, ret):
+    """Along this path, is argument idx of `call` the very value the function returns - the same local, or locals that are plain
+    copies of one another on the path (moved = realloc(..); record(.., moved); result = moved; return result)?"""
+    if ret is None or ret.get("val") is None:
+        return False
+    args = call["ch"][1:]
+    if idx >= len(args):
+        return False
+    a = X.strip(args[idx])
+    r = X.strip(ret["val"])
+    if a is None or r is None or a.get("k") != "ref" or r.get("k") != "ref":
+        return False
+    origin = {}
+
+    def org(d):
+        return origin.get(d, ("init", d))
+    at_call = None
+    for ev in path:
+        if ev[0] == "assign":
+            n = ev[2]
+            l = X.strip(n["ch"][0])
+            if l.get("k") == "ref" and l.get("rk") == "local":
+                rr = X.strip(n["ch"][1])
+                if n.get("op") == "=" and rr is not None and rr.get("k") == "ref" and rr.get("rk") in ("local", "param"):
+                    origin[l["d"]] = org(rr["d"])
+                else:
+                    origin[l["d"]] = ("def", n["i"])
+        elif ev[0] == "call" and ev[2] is call:
+            at_call = org(a["d"])
+    return at_call is not None and at_call == org(r["d"])
 
 
 def returned_local(ret):
@@ -216,7 +265,7 @@ def check_alloc_wrapper(chk, prog, fn, allocator, edit, mem_level, size_desc, pi
             if ok:
                 e = edits[0][1]
                 order_ok = names.index(allocator) < names.index(edit)
-                ptr_ok = rl is not None and arg_is(fn, e, 3, ("local", rl))
+                ptr_ok = (rl is not None and arg_is(fn, e, 3, ("local", rl))) or arg_is_returned_value(p, e, 3, ret)
                 tab_ok = arg_is(fn, e, 0, ("addr_global", "malloc_rec"))
                 file_ok = arg_is(fn, e, 1, ("param", pidx["file"]))
                 line_ok = arg_is(fn, e, 2, ("param", pidx["line"]))
@@ -432,7 +481,7 @@ def run(tier="quick", mktable=False):
                 rc = [c for c in calls if c[0] == "realloc"][0][1]
                 conds = (("not the malloc table", arg_is(f, e, 0, ("addr_global", "malloc_rec"))),
                          ("file", arg_is(f, e, 2, ("param", 1))), ("line", arg_is(f, e, 3, ("param", 2))),
-                         ("old pointer", arg_is(f, e, 4, ("param", 3))), ("new pointer is not the returned block", rl is not None and arg_is(f, e, 5, ("local", rl))),
+                         ("old pointer", arg_is(f, e, 4, ("param", 3))), ("new pointer is not the returned block", (rl is not None and arg_is(f, e, 5, ("local", rl))) or arg_is_returned_value(p, e, 5, ret)),
                          ("size", canon(f, e["ch"][1:][6]) == canon(f, rc["ch"][1:][1])),
                          ("edited before reallocating", names.index("realloc") < names.index("memrec_chg_var")))
                 ok = all(o for _, o in conds)
